@@ -1,18 +1,24 @@
 """C15 — ODE solvers return the solution of the stated problem under any transformation.
 
-gen:    c15_translate (fail-closed symbolic interpreter, Python ast) executes the helpers of src/grid/ode.py
+gen:    c15_translate (fail-closed symbolic interpreter over the Python ast) executes the helpers of src/grid/ode.py
         (_evaluate_coeffs_on_points, _transform_ode_from_derivs, _transform_ode_from_rtransform,
         _transform_and_rearrange_to_explicit_ode, _rearrange_to_explicit_ode, _derivative_transformation_matrix) and the
-        nested right-hand sides `func` of solve_ode_ivp / solve_ode_bvp for orders 1..3 -> C15_gen.v; C03's transforms are
-        regenerated alongside (C03_gen.v).  The remaining wiring (span, initial data, returned callable, boundary
-        function) is a hand model (coq/C15/C15_model.v) whose statements are pattern-checked in the source.
-prove:  coq/C15/*.v  chain_rule_1..3, jet_matrix*, explicit_form_1..3, solution_transfers_{ivp,bvp}_1..3, direct_solution_*,
-        instances with Becke / Knowles / MultiExp.
-tie:    interval enclosures of the generated helper terms against the implementation on dyadic inputs; the hand model of
-        the wiring against the implementation with SciPy's solvers replaced by a recording stub; sympy.bell and
-        scipy.linalg.solve validated against their contracts.
-search: manufactured-solution problems (runtime numerics, partial): orders 1..3, constant / variable / mixed coefficients,
-        IVP with several methods, BVP, no transform and every transform class with k, m in {1,2,3}.
+        nested right-hand sides `func` of solve_ode_ivp / solve_ode_bvp for orders 1..3 on symbolic inputs -> C15_gen.v;
+        C03's transforms are regenerated alongside (C03_gen.v).  The remaining wiring (span, initial data, returned
+        callable, boundary function) is a hand model (coq/C15/C15_model.v); its statements are pattern-checked in the source.
+prove:  coq/C15/*.v   chain_rule_1..3 (+ chain_rule_derive_n), jet_matrix, jet_matrix_derive, jet_matrix_invertible_1..3,
+        explicit_form_1..3, tre_is_explicit_of_tode, solution_transfers_{ivp,bvp}_1..3, direct_solution_1..3, and the instances
+        Becke / Knowles / MultiExp (admissibility from C03's lemmas, solution_transfers_ivp_3_{Becke,Knowles},
+        solution_transfers_bvp_2_MultiExp, chain_rule_3_Knowles).  SciPy's integrators, scipy.linalg.solve and sympy.bell are
+        oracles (hypotheses solves_K / init_T_K / bc_entry = 0, recurrence of C15_bell.v), validated on every run.
+tie:    interval enclosures of the generated helper terms against the implementation on dyadic inputs (numbers, ndarray and
+        callable coefficients, real transform objects); the hand model of the wiring against the implementation with SciPy's
+        solvers replaced by a recording stub (span, initial data, right-hand side, boundary function, returned callable,
+        pass-through of tolerances / method).
+search: manufactured-solution problems (runtime numerics, labelled partial): orders 1..3, constant / variable / mixed
+        coefficients, IVP with RK45 / RK23 / DOP853 / LSODA / Radau / BDF forwards and backwards, BVP with value and derivative
+        conditions, no transform and all 12 transform classes with k, m in {1,2,3}; solution, derivatives w.r.t. the original
+        variable, prescribed data, transformed-vs-direct agreement.  Directed corpus re-derives the listed findings.
 """
 from __future__ import annotations
 
@@ -30,9 +36,10 @@ from vlib.core import SRC, Ctx, r_lit
 
 # solver tolerances used by the sweep and the acceptance thresholds tied to them (see calibrate notes in evidence)
 IVP_RTOL, IVP_ATOL = 1e-10, 1e-12
-IVP_TOL = 2e-6          # |returned - exact| <= IVP_TOL * (1 + max|exact|) per component (solver tolerance 1e-10 x amplification margin)
-BVP_SOLVER_TOL = 1e-8
-BVP_TOL = 2e-5
+IVP_TOL = 2e-5          # |returned - exact| <= IVP_TOL * (1 + max|exact|) per component; observed over 3000 problems: median 3e-11, max 2e-7
+                        # (error growth along the interval and the scaling by g'^k are part of the margin)
+BVP_SOLVER_TOL = 1e-8   # SciPy controls the relative residual, not the global error
+BVP_TOL = 2e-4          # observed: median 5e-12, max 5e-6
 AGREE_FACTOR = 2.0      # transformed vs direct: both within TOL of the exact solution => within 2 TOL of each other
 COND_TOL = 1e-8         # prescribed initial / boundary values reproduced to this relative accuracy
 
@@ -150,7 +157,9 @@ def sample_transform(rng, cname, npts=2):
         return ("Inverse", ("BeckeRTransform", (("rmin", rmin), ("R", R)))), (lo, lo + dq(rng, 0.5, 1.5))
     p, (lo, hi), _ = c03.sample_params(cname, rng)
     if cname == "HyperbolicRTransform" and p["b"] * (npts - 1) >= 0.9:
-        p["b"] = dq(rng, 0.3, 0.85, 6) / (npts - 1)
+        p["b"] = dq(rng, 0.3, 0.85, 6) / 2 ** math.ceil(math.log2(npts - 1))
+    if cname in ("ExpRTransform", "PowerRTransform", "LinearInfiniteRTransform") and p["b"] < 4:
+        p["b"] = dq(rng, 4, 30)  # keep x in [0, b], where the map goes to [rmin, rmax]; beyond b the exponential maps are badly scaled
     if "k" in p:
         p["k"] = rng.choice([1, 2, 3])
     if "m" in p:
@@ -197,6 +206,28 @@ def spec_desc(s):
 
 
 # ------------------------------------------------------------------------------------------ running one problem
+class SolveTimeout(Exception):
+    pass
+
+
+SOLVE_LIMIT_S = 60  # a healthy solve of these problems takes well under a second
+
+
+def with_timeout(seconds, f, *a, **k):
+    """run f in the main thread with a wall-clock limit (a mutated right-hand side can make SciPy step forever)"""
+    import signal
+
+    def handler(signum, frame):
+        raise SolveTimeout(f"no result after {seconds} s")
+    old = signal.signal(signal.SIGALRM, handler)
+    signal.alarm(seconds)
+    try:
+        return f(*a, **k)
+    finally:
+        signal.alarm(0)
+        signal.signal(signal.SIGALRM, old)
+
+
 def call_quiet(f, *a, **k):
     with warnings.catch_warnings():
         warnings.simplefilter("ignore")
@@ -293,7 +324,7 @@ def check_problem(spec, results):
         if variant == "transformed" and tfs is None:
             continue
         try:
-            v, xs = runner(spec, tfs)
+            v, xs = with_timeout(SOLVE_LIMIT_S, runner, spec, tfs)
         except Exception as e:  # noqa: BLE001
             results.append(("raises", f"{type(e).__name__}: {str(e)[:120]}", "a solution", variant, spec))
             continue
@@ -337,7 +368,7 @@ def corpus_checks(ctx: Ctx):
     for method in ("Radau", "BDF"):
         spec = dict(CORPUS_IMPLICIT, method=method)
         try:
-            v, xs = run_ivp(spec, None)
+            v, xs = with_timeout(SOLVE_LIMIT_S, run_ivp, spec, None)
             _, _, sol = build(spec)
             ok = relerr(v[0], sol.d(0, xs)) <= 1e-4
             obs = "inaccurate"
@@ -359,60 +390,75 @@ def corpus_checks(ctx: Ctx):
     x0, x1 = spec["span"]
     y0 = [float(sol.d(k, x0)) for k in range(2)]
     exact = [float(sol.d(0, 0.25)), float(sol.d(1, 0.25))]
+    u_jet = jet_u_from_y(make_transform(spec["tf"]), 0.25, exact)
     obs = []
     for nd in (False, True):
         out = call_quiet(GO.solve_ode_ivp, (x0, x1), fx, coeffs, y0, make_transform(spec["tf"]), no_derivatives=nd, rtol=IVP_RTOL, atol=IVP_ATOL)
         try:
             v = np.asarray(call_quiet(out, 0.25), dtype=float).ravel()
             want = exact[:1] if nd else exact
-            good = v.shape == (len(want),) and np.allclose(v, want, rtol=1e-6, atol=1e-8)
-            obs.append("ok" if good else "shape " + str(v.shape) + " second entry " + ("%.6f" % v[1] if v.size > 1 else "-"))
+            if v.shape == (len(want),) and np.allclose(v, want, rtol=1e-6, atol=1e-8):
+                obs.append("ok")
+            elif v.shape == (2,) and abs(v[1] - u_jet[1]) <= 1e-6:
+                obs.append("returns [y, dy/dr]: the derivative w.r.t. the transformed variable")
+            else:
+                obs.append("wrong value of shape " + str(v.shape))
         except Exception as e:  # noqa: BLE001
             obs.append(type(e).__name__)
     ctx.case(("corpus", "scalar"))
     if obs != ["ok", "ok"]:
         ctx.fail("sweep_scalar_point", "solve_ode_ivp(..., BeckeRTransform(0.125, 2.0))(0.25)", obs,
                  "the callable returned for a transformed problem cannot be evaluated at a scalar point like the one returned without a transform "
-                 f"(SciPy's OdeSolution): no_derivatives=False -> {obs[0]}; no_derivatives=True -> {obs[1]} (for order >= 2 it returns the whole "
-                 f"jet w.r.t. the TRANSFORMED variable instead of y(x)); exact [y, y'](0.25) = {exact}",
+                 f"(SciPy's OdeSolution): no_derivatives=False -> {obs[0]}; no_derivatives=True -> {obs[1]}; "
+                 f"exact [y, y'](0.25) = {exact}",
                  {"reproduce": "sol = solve_ode_ivp((-0.5,0.5), fx, [1.0,0.5,2.0], y0, BeckeRTransform(0.125, 2.0), no_derivatives=...); sol(0.25)",
                   "expected": exact})
-    # plain Python floats as x_span with the transforms whose derivative methods only accept arrays
-    float_span_ok = True
+    # transforms whose derivative methods only accept arrays / return arrays of shape (1,) for one point
+    float_span_ok, li_matrix_ok = True, True
+    seen = {}
     for cname, tfs in (("LinearInfiniteRTransform", ("LinearInfiniteRTransform", (("rmin", 1.0), ("rmax", 9.0), ("b", 8.0)))),
-                       ("HyperbolicRTransform", ("HyperbolicRTransform", (("a", 2.0), ("b", 0.25))))):
-        spec = dict(CORPUS_SCALAR, tf=tfs, span=(0.5, 1.5))
-        ctx.case(("corpus", "float_span", cname))
-        try:
-            v, xs = run_ivp(spec, tfs)
-            _, _, sol = build(spec)
-            ok, obs = relerr(v[0], sol.d(0, xs)) <= IVP_TOL, "inaccurate"
-        except Exception as e:  # noqa: BLE001
-            ok, obs = False, type(e).__name__ + ": " + str(e)[:90]
-        if not ok:
-            float_span_ok = False
-            if cname == "LinearInfiniteRTransform":  # HyperbolicRTransform fails in the same way; one record
-                ctx.fail("sweep_float_span", "solve_ode_ivp((0.5, 1.5), fx, [1.0, 0.5, 2.0], y0, LinearInfiniteRTransform(1.0, 9.0, 8.0))", obs,
-                         f"solve_ode_ivp with x_span given as Python floats fails with LinearInfiniteRTransform and HyperbolicRTransform ({obs}): the initial data are converted "
-                         "with transform.deriv(x_span[0]) on a bare float, which these two classes do not accept (np.float64 end points work)",
-                         {"reproduce": "solve_ode_ivp((0.5, 1.5), fx, [1.0, 0.5, 2.0], [y(0.5), y'(0.5)], LinearInfiniteRTransform(1.0, 9.0, 8.0))",
-                          "expected": "the same solution as without the transform"})
-    return implicit_ok, float_span_ok
+                       ("HyperbolicRTransform", ("HyperbolicRTransform", (("a", 2.0), ("b", 0.0625))))):
+        for np_span in (False, True):
+            spec = dict(CORPUS_SCALAR, tf=tfs, span=(0.5, 1.5), np_span=np_span)
+            ctx.case(("corpus", "float_span", cname, np_span))
+            try:
+                v, xs = with_timeout(SOLVE_LIMIT_S, run_ivp, spec, tfs)
+                _, _, sol = build(spec)
+                ok, obs = relerr(v[0], sol.d(0, xs)) <= IVP_TOL, "inaccurate"
+            except Exception as e:  # noqa: BLE001
+                ok, obs = False, type(e).__name__ + ": " + str(e)[:90]
+            seen[(cname, np_span)] = "ok" if ok else obs
+            if not ok and not np_span:
+                float_span_ok = False
+            if not ok and np_span and cname == "LinearInfiniteRTransform":
+                li_matrix_ok = False
+    if not (float_span_ok and li_matrix_ok):
+        obs = seen[("LinearInfiniteRTransform", False)]
+        ctx.fail("sweep_transform_classes", "solve_ode_ivp((0.5, 1.5), fx, [1.0, 0.5, 2.0], y0, LinearInfiniteRTransform(1.0, 9.0, 8.0))", obs,
+                 "solve_ode_ivp cannot be used with LinearInfiniteRTransform (and, with Python-float end points, HyperbolicRTransform): _derivative_transformation_matrix "
+                 "evaluates transform.deriv/deriv2/deriv3 at a bare scalar, but these classes need an array (x.size) and LinearInfinite returns shape-(1,) arrays that sympy.bell "
+                 f"rejects. LinearInfinite, float span: {seen[('LinearInfiniteRTransform', False)]}; np.float64 span: {seen[('LinearInfiniteRTransform', True)]}; "
+                 f"Hyperbolic, float span: {seen[('HyperbolicRTransform', False)]}; np.float64 span: {seen[('HyperbolicRTransform', True)]}. The same statement makes the callable "
+                 "returned by solve_ode_bvp(..., LinearInfiniteRTransform, no_derivatives=False) fail for order >= 2.",
+                 {"reproduce": "solve_ode_ivp((0.5, 1.5), fx, [1.0, 0.5, 2.0], [y(0.5), y'(0.5)], LinearInfiniteRTransform(1.0, 9.0, 8.0))  # y = (1+x)exp(-x)",
+                  "expected": "the same solution as without the transform"})
+    return {"implicit_ok": implicit_ok, "float_span_ok": float_span_ok, "li_matrix_ok": li_matrix_ok}
 
 
-def sweep(ctx: Ctx, implicit_ok: bool, float_span_ok: bool):
+def sweep(ctx: Ctx, flags: dict):
+    implicit_ok, float_span_ok, li_matrix_ok = flags["implicit_ok"], flags["float_span_ok"], flags["li_matrix_ok"]
     rng = ctx.rng
     results = []
     plan = []
-    n_ivp = 36 if ctx.quick else 400
-    n_bvp = 12 if ctx.quick else 120
+    n_ivp = 36 if ctx.quick else 1200
+    n_bvp = 12 if ctx.quick else 300
     classes = list(TF_CLASSES)
     methods = ["RK45", "RK23", "DOP853", "LSODA"]
     for it in range(n_ivp):
         order = 1 + (it + it // len(classes)) % 3
         cname = classes[it % len(classes)] if it % 13 != 12 else None
         if cname:
-            tfs, iv = sample_transform(rng, cname)
+            tfs, iv = sample_transform(rng, cname, npts=9)
         else:
             tfs, a = None, dq(rng, -1, 1)
             iv = (a, a + dq(rng, 0.5, 1.5))
@@ -422,6 +468,9 @@ def sweep(ctx: Ctx, implicit_ok: bool, float_span_ok: bool):
                 "tf": tfs, "span": tuple(float(v) for v in span), "method": m}
         if cname in ("LinearInfiniteRTransform", "HyperbolicRTransform") and not float_span_ok:
             spec["np_span"] = True  # work around the listed finding so that these transforms are still exercised
+        if cname == "LinearInfiniteRTransform" and order >= 2 and not li_matrix_ok:
+            ctx.count("skipped_listed_finding_LinearInfinite")
+            continue
         if all(c[0] in ("c", "i") for c in spec["coeffs"]) and rng.random() < 0.4:
             spec["as_array"] = True
         plan.append(spec)
@@ -432,7 +481,7 @@ def sweep(ctx: Ctx, implicit_ok: bool, float_span_ok: bool):
         order = 1 + (tries + tries // len(classes)) % 3
         cname = classes[tries % len(classes)] if tries % 13 != 12 else None
         if cname:
-            tfs, iv = sample_transform(rng, cname, npts=41)
+            tfs, iv = sample_transform(rng, cname, npts=4097)  # SciPy refines the mesh; Hyperbolic needs b * (nodes - 1) < 1
         else:
             tfs, a = None, dq(rng, -1, 1)
             iv = (a, a + dq(rng, 0.5, 1.5))
@@ -444,6 +493,9 @@ def sweep(ctx: Ctx, implicit_ok: bool, float_span_ok: bool):
             bd = rng.choice([[(0, 0), (0, 1), (1, 0)], [(0, 0), (1, 0), (1, 1)], [(0, 0), (0, 2), (1, 0)]])
         spec = {"problem": "bvp", "order": order, "coeffs": sample_coeffs(rng, order, rng.choice(["const", "var", "mixed"])), "sol": sample_sol(rng),
                 "tf": tfs, "span": tuple(float(v) for v in iv), "bd": [tuple(b) for b in bd]}
+        if cname == "LinearInfiniteRTransform" and order >= 2 and not li_matrix_ok:
+            ctx.count("skipped_listed_finding_LinearInfinite")
+            continue
         cond = bvp_condition_number(spec)
         ctx.count("bvp_well_conditioned" if cond <= 50 else "bvp_skipped_ill_conditioned")
         if cond > 50:
@@ -549,6 +601,9 @@ def helper_cases(ctx: Ctx, sigs):
     TAC = "c15_eval"
 
     def add(goal_term, y, obligation, key, text):
+        if not math.isfinite(float(y)):
+            ctx.fail(obligation, key, str(float(y)), text + " (the implementation's value is not finite)", found_input=False)
+            return
         cases.append((f"Rabs ({goal_term} - {r_lit(float(y))}) <= {tol_of(y)}", TAC))
         meta.append((obligation, key, float(y), text, None))
 
@@ -645,6 +700,9 @@ def wiring_cases(ctx: Ctx, sigs):
     TAC = "c15_eval"
 
     def add(goal_term, y, key, text):
+        if not math.isfinite(float(y)):
+            ctx.fail("corr_wiring", key, str(float(y)), text + " (the implementation's value is not finite)", found_input=False)
+            return
         cases.append((f"Rabs ({goal_term} - {r_lit(float(y))}) <= {tol_of(y)}", TAC))
         meta.append(("corr_wiring", key, float(y), text, None))
 
@@ -704,10 +762,9 @@ def wiring_cases(ctx: Ctx, sigs):
                     Y = [dq(rng, -3, 3) for _ in range(K)]
                     v = np.asarray(call_quiet(rec["fun"], r, np.array([[t] for t in Y], dtype=float)), dtype=float).ravel()
                     call = f"ivp_rhsT_{K} {A} {g[1]} {g[2]} {g[3]} {g[4]} {poly_coq(ff)} {r_lit(r)} {' '.join(r_lit(t) for t in Y)}"
+                    projs = [call] if K == 1 else ([f"fst ({call})", f"snd ({call})"] if K == 2 else [f"fst (fst ({call}))", f"snd (fst ({call}))", f"snd ({call})"])
                     for e in range(K):
-                        proj = call if K == 1 else (f"{['fst', 'snd'][e]} ({call})" if K == 2 else f"{['fst (fst', 'snd (fst', 'snd ('][e]} ({call}))".replace("snd ( (", "snd ("))
-                        if K == 3:
-                            proj = [f"fst (fst ({call}))", f"snd (fst ({call}))", f"snd ({call})"][e]
+                        proj = projs[e]
                         add(proj, v[e], f"ivp-rhs:{desc}:r={r}:Y={Y}:{e}", f"func(r={r}, Y={Y})[{e}] handed to solve_ivp = {v[e]} is not the generated ivp_rhsT_{K}")
                     ctx.case(("wiring-ivp-rhs", desc, r))
                 # returned callable
@@ -812,6 +869,9 @@ RELEVANT = {  # which sweep failures witness which theorem
 
 
 def run(ctx: Ctx):
+    import time
+    t0 = time.time()
+    phases = {}
     status = {}
     sigs = None
     try:
@@ -826,12 +886,16 @@ def run(ctx: Ctx):
         ctx.copy_coq("C03/C03_proofs_simple.v", "C03/C03_proofs_knowles.v")
         status = ctx.coq_build()
         ctx.register_props(status)
-    implicit_ok, float_span_ok = corpus_checks(ctx)
-    results = sweep(ctx, implicit_ok, float_span_ok)
+    phases["gen+coq_build"] = round(time.time() - t0, 1)
+    t0 = time.time()
+    flags = corpus_checks(ctx)
+    results = sweep(ctx, flags)
+    phases["sweep"] = round(time.time() - t0, 1)
+    t0 = time.time()
     # per check kind only the first failing input is reported; failing theorems get the matching witness
     first = {}
     for kind, obs, exp, variant, spec in results:
-        first.setdefault((kind, variant if kind != "transformed_vs_direct" else "both"), (obs, exp, variant, spec))
+        first.setdefault((kind, variant if kind != "transformed_vs_direct" else "both", spec["order"]), (obs, exp, variant, spec))
     used = set()
 
     def report(obligation, k, rec):
@@ -845,13 +909,21 @@ def run(ctx: Ctx):
             continue
         fam = ("chain" if name.startswith("chain_rule") else "jet" if name.startswith("jet_matrix") else "explicit" if name.startswith(("explicit", "tre_", "coeff"))
                else "direct" if name.startswith("direct") else "transfers")
+        m = __import__("re").search(r"_(\d)(?:_|$)", name)
+        want_order = int(m.group(1)) if m else None
+        cands = []
         for k, rec in first.items():
-            if RELEVANT[fam](rec[3], k[0]) and (fam == "direct") == (rec[2] == "direct" and k[0] != "transformed_vs_direct") or (fam not in ("direct",) and rec[2] != "direct" and RELEVANT[fam](rec[3], k[0])):
-                report(name, k, rec)
-                used.add(k)
-                break
+            through_tf = rec[2] != "direct"  # the transformed solve, or the transformed-vs-direct comparison
+            if (fam == "direct" and not through_tf) or (fam != "direct" and through_tf and RELEVANT[fam](rec[3], k[0])):
+                cands.append((0 if rec[3]["order"] == want_order else 1, len(cands), k, rec))
+        if cands:
+            _, _, k, rec = min(cands)
+            report(name, k, rec)
+            used.add(k)
+    seen_kinds = {k[:2] for k in used}
     for k, rec in first.items():
-        if k not in used:
+        if k[:2] not in seen_kinds:  # one witness per (check kind, variant)
+            seen_kinds.add(k[:2])
             report(f"sweep_{k[0]}", k, rec)
     # oracle validation + correspondence
     ocases, ometa = validate_oracles(ctx)
@@ -860,6 +932,8 @@ def run(ctx: Ctx):
         wcases, wmeta = wiring_cases(ctx, sigs)
         run_coq_cases(ctx, "C15_corr", ocases + hcases + wcases, ometa + hmeta + wmeta)
         ctx.cov["correspondence_goals"] = {"oracle": len(ocases), "helpers": len(hcases), "wiring": len(wcases)}
+    phases["oracles+correspondence"] = round(time.time() - t0, 1)
+    ctx.cov["phase_seconds"] = phases
     ctx.cov["rule"] = ("sweep: manufactured solutions y = (p0+p1 x+p2 x^2) e^(al x) + be sin(om x+ph) with random dyadic parameters, orders 1..3 cyclically, constant "
                        "(float/int/ndarray) / variable / mixed coefficients with non-vanishing leading coefficient, f built from the exact derivatives; IVP: methods RK45, RK23, "
                        "DOP853, LSODA (+Radau, BDF where they work), forward and backward spans, no transform and the 12 transform classes cyclically with k, m in {1,2,3}; "
